@@ -22,7 +22,8 @@ def run(tier, rep, work):
     hybfam.run_trace(rep, work, exe, d, "C05", tier, "random", None, 7, 1500 if quick else 15000, C.seed(), n); n += 1
     # an IVF vector sub-index searched at full probe through the hybrid builder (exact, so the same oracle applies; exercises the nprobes pass-through)
     hybfam.run_trace(rep, work, exe, d, "C05", tier, "random/ivf-full-probe", gen7[(C.seed() + 3) % stride::stride * 3], 7, 500 if quick else 5000, C.seed() + 1, n, vec="ivf")
-    rep.cov["exhaustive"] = True
+    rep.cov["exhaustive"] = False
+    rep.cov["exhaustive_scope"] = "write histories enumerated completely by TLC, a stride replayed; the query space is sampled (battery + random)"
     rep.cov["rule"] = ("TLC enumerates every history of hybrid Add / failing Add / Remove / Flush / Reload up to 4 operations over 2 ids and 5 document templates (documents with any subset of "
                        "modalities) for the configured sub-index combinations; a stride of those histories is replayed on a real hybrid index (flat squared-L2 on a 1-D lattice, BM25, roaring metadata), "
                        "each followed by a battery of 27 searches (vector-only, text-only, metadata-only, vector+text under the four fusions and several weights, with filters that match / match nothing, "
